@@ -371,6 +371,9 @@ def digest_case(kind, case):
             return digest(kdsl.trace_of(kdsl.run_program(case)))
         except Violation as v:
             return "VIOL:" + v.signature
+    if kind == "res":
+        from . import c03_res
+        return c03_res.digest(case)
     from . import c03_net
     return c03_net.digest_scenario(case)
 
@@ -396,6 +399,8 @@ def hashseed_batch(tier, seed_value):
         from . import c03_net
         cases += [["net", c] for c in collect_cases(c03_net.scenario_strategy(tier), n // 3, seed_value + 1)]
         cases += [["net", c] for c in collect_cases(c03_net.strclass_strategy(tier), n // 3, seed_value + 2)]
+        from . import c03_res
+        cases += [["res", c] for c in collect_cases(c03_res.res_strategy(tier), n // 3, seed_value + 3)]
     except ImportError:
         pass
     tmp = os.path.join(common.VERIF, ".shards", f"c03-batch-{os.getpid()}.json")
@@ -445,6 +450,16 @@ def _run_net_split(case):
     return c03_net.run_net_split(case)
 
 
+def _res_strategy(tier):
+    from . import c03_res
+    return c03_res.res_strategy(tier)
+
+
+def _run_res(case):
+    from . import c03_res
+    return c03_res.run_twice(case)
+
+
 PROP = Property(
     "C03",
     rule=("(split) generated kernel program + generated split plan (run(until=now+d) with d from the delay grid incl. d<=0, "
@@ -459,7 +474,10 @@ PROP = Property(
           "twice in-process. (hashseed_batch) a batch of generated programs and network scenarios re-executed in fresh "
           "interpreters under several PYTHONHASHSEED values, SHA-256 of traces compared. (net_split) generated network pipelines "
           "(C08 grammar: generators -> elements -> sinks, seeded wire loss/RED) run uninterrupted, split by run(until)/step "
-          "sequences, and repeated: the global tap trace must be identical."),
+          "sequences, and repeated: the global tap trace must be identical. (resources) generated producer/consumer programs over "
+          "a PriorityStore with many equal-priority items, a FilterStore and a PriorityResource, executed three times in one "
+          "interpreter with the allocator's free lists stirred in between, and in the fresh interpreters of the batch: who got "
+          "what when must be identical."),
     facets=[Facet("split", split_strategy, run_split, quick=2500, thorough=15000,
                   essential=["stop at busy instant", "until-event with earlier waiters", "until-event with later waiters",
                              "step-only segment", "stop at float-inexact offset",
@@ -469,7 +487,9 @@ PROP = Property(
                   essential=["stop at busy instant", ">=2 effective stops", "stop given as a float on an integer clock"]),
             Facet("twice", prog_strategy, run_twice, quick=300, thorough=2000),
             Facet("net_split", _net_split_strategy, _run_net_split, quick=600, thorough=3000,
-                  essential=["network scenario split", "scenario with monitors"])],
+                  essential=["network scenario split", "scenario with monitors"]),
+            Facet("resources", _res_strategy, _run_res, quick=300, thorough=3000,
+                  essential=["equal-priority items waiting together"])],
     assumptions=["a failed until-event may be raised or returned (statement silent)",
                  "other interpreters = fresh processes of the one CPython present, PYTHONHASHSEED varied"],
     extra=hashseed_batch,
